@@ -3,49 +3,7 @@
 use vstd::prelude::*;
 use std::collections::HashMap;
 verus! {
-// ---- context shells (D5): Model/Workbook declared with only the fields the extracted functions touch; every other
-// piece of engine state sits behind an opaque `rest` field.  Diff is the REAL enum; field types no operation here
-// looks into are opaque.
-#[verifier::external_body] pub struct Cell { _o: u8 }
-#[verifier::external_body] pub struct Col { _o: u8 }
-#[verifier::external_body] pub struct Row { _o: u8 }
-#[verifier::external_body] pub struct Style { _o: u8 }
-#[verifier::external_body] pub struct StyleIncludes { _o: u8 }
-#[verifier::external_body] pub struct Theme { _o: u8 }
-#[verifier::external_body] pub struct CfRule { _o: u8 }
-#[verifier::external_body] pub struct Link { _o: u8 }
-#[verifier::external_body] pub struct Color { _o: u8 }
-#[verifier::external_body] pub struct Worksheet { _o: u8 }
-#[verifier::external_body] pub struct ModelRest<'a> { _p: core::marker::PhantomData<&'a u8> }
-#[verifier::external_body] pub struct WorkbookRest { _o: u8 }
-impl Clone for Color { #[verifier::external_body] fn clone(&self) -> (r: Self) ensures r == *self { unimplemented!() } }
-//@type base/src/types.rs SheetState
-impl Clone for SheetState { #[verifier::external_body] fn clone(&self) -> (r: Self) ensures r == *self { unimplemented!() } }
-//@type base/src/user_model/history.rs RowData
-//@type base/src/user_model/history.rs ColumnData
-//@type base/src/user_model/history.rs Diff
-impl Clone for Diff { #[verifier::external_body] fn clone(&self) -> (r: Self) ensures r == *self { unimplemented!() } }
-//@type base/src/user_model/history.rs DiffList
-//@type base/src/user_model/history.rs History
-//@type base/src/user_model/history.rs DiffType
-//@type base/src/user_model/history.rs QueueDiffs
-//@type base/src/types.rs WorkbookView
-#[verifier::external_body] pub struct WorksheetView { _o: u8 }
-pub struct Workbook { pub worksheets: Vec<Worksheet>, pub views: HashMap<u32, WorkbookView>, pub name: String, pub rest: WorkbookRest }
-pub struct Model<'a> { pub workbook: Workbook, pub view_id: u32, pub rest: ModelRest<'a> }
-//@type base/src/user_model/common.rs UserModel
-
-/// the part of a UserModel that C04 says a failed call must leave alone
-pub open spec fn same_state(a: &UserModel, b: &UserModel) -> bool {
-    a.model == b.model && a.history.undo_stack@ =~= b.history.undo_stack@ && a.history.redo_stack@ =~= b.history.redo_stack@
-        && a.send_queue@ =~= b.send_queue@
-}
-/// exactly one entry recorded (and, per C02, the redo list discarded)
-pub open spec fn one_entry(a: &UserModel, b: &UserModel) -> bool {
-    b.history.undo_stack@.len() == a.history.undo_stack@.len() + 1 && b.history.undo_stack@.drop_last() =~= a.history.undo_stack@
-        && b.history.redo_stack@.len() == 0 && b.send_queue@.len() == a.send_queue@.len() + 1
-}
-
+//@include um_shells.rs
 impl<'a> Model<'a> {
 // ---- A-atomic: each engine call either succeeds or leaves the engine state unchanged (ASSUMED, listed) ----
 //@stub base/src/model.rs Model::get_frozen_rows_count
